@@ -33,7 +33,28 @@ pub fn decode(bytes: &[u8]) -> Case {
     let mut u = Un::new(bytes);
     let mut names = Names::new();
     names.mid_names = true;
-    let level = gen_broad_level(&mut u, &mut names, &cfg(), 1);
+    let mut level = gen_broad_level(&mut u, &mut names, &cfg(), 1);
+    // positionals of every strictness: the builder methods must keep help and metavariable
+    fn strictness(n: &mut Node, u: &mut Un) {
+        match n {
+            Node::Pos(p) => {
+                p.strict = *u.pick(&[
+                    Strictness::Unrestricted,
+                    Strictness::Unrestricted,
+                    Strictness::Strict,
+                    Strictness::NonStrict,
+                ]);
+            }
+            Node::Cmd(c) => strictness(&mut c.level.body, u),
+            Node::Adjacent(_) => {}
+            other => {
+                for c in other.children_mut() {
+                    strictness(c, u);
+                }
+            }
+        }
+    }
+    strictness(&mut level.body, &mut u);
     Case { level }
 }
 
